@@ -78,7 +78,7 @@ CHECKS["C12"] = ("exploration",
 CHECKS["C19"] = ("exploration",
     "stateful operation-history generation (Hypothesis) against an in-process RFC 7233 range server + reference model (byte string + position) + local-vs-HTTP dataset differential",
     "Byte level: random resources with length around multiples of the chunk size (chunk 1-4096, keep_chunks 1-8, length 0 included), histories of seek (SET/CUR/END), tell, read(n) ending on chunk boundaries, spanning chunks, ending at / crossing EOF, n=0; after every operation data, position, cache size <= keep_chunks, cached content, no chunk behind EOF. Dataset level: generated .rtdc files (scalar, image, mask, contour, trace, logs, tables; Zstd/gzip/none) opened through RTDC_HTTP / new_dataset(url) with small chunk sizes and compared with the local file (features, config incl. types, logs, tables). All comparisons exact. Exploration, not proof.",
-    "One server behaviour (invalid range ignored per RFC 7233); S3 transport not run; request counts are recorded but not judged.",
+    "One server behaviour (invalid range ignored per RFC 7233) plus one transient 503 on the header request and a resource replaced behind the same URL; S3File runs at byte level against the same server (unsigned path-style endpoint, 5 enumerated sizes), RTDC_S3 / DCOR datasets are not opened; faults on range requests are outside the property; request counts are recorded but not judged.",
     "DESIGN.md §5 C19, notes/C19.md")
 CHECKS["C11"] = ("exploration",
     "enumerated sweep over every metadata key x route + Hypothesis-generated assignment histories / configuration files / stored files carried through the tools, against an independent key table and normalisation (vf/lib_meta.py)",
